@@ -18,6 +18,9 @@ var AverageRequired = AveragePeriod / 2 // If we have at least half the rates, w
 //
 // Also note that if asked twice about the same height, we cache the response.
 func (d *Pegnetd) GetPegNetRateAverages(ctx context.Context, height uint32) (Avg interface{}) {
+	// API handlers call this concurrently with the sync routine; the cache below is shared
+	d.averagesLock.Lock()
+	defer d.averagesLock.Unlock()
 
 	verifGate("avg:enter")
 	if d.LastAveragesHeight == height { //                      If a cache hit is detected, return the cache value
